@@ -802,14 +802,19 @@ package app
 //@   preserves only-startable: forall i int {runOrder[i]} :: 0 <= i && i < len(runOrder) ==> startable(runOrder[i])
 
 // env_cmds: runs the configured commands and appends NAME=output to the global environment (C17); nothing else changes
+// Every env command that ran successfully contributes exactly one entry - also when its output is empty (NAME= still
+// shadows an inherited NAME).
+//@ ghost okEnvCmds() int
 //@ func runCmd
 //@   param cancel as cancelfunc
-//@   assigns ctxCount(), lastTimeout(), timeoutCtxs(), cancelCalls[*], cancelled[*]
+//@   sets okEnvCmds() := okEnvCmds() + ite(result1 == nil, 1, 0)
+//@   assigns okEnvCmds(), ctxCount(), lastTimeout(), timeoutCtxs(), cancelCalls[*], cancelled[*]
 //@ func (p *ProjectRunner) prepareEnvCmds
-//@   requires noLocks()
+//@   requires noLocks() && p.project != nil
 //@   ensures noLocks()
-//@   assigns types.Project.Environment[*], heap(Elem.Str), ctxCount(), lastTimeout(), timeoutCtxs(), cancelCalls[*], cancelled[*]
-//@   loop 1 invariant noLocks()
+//@   ensures one-entry-per-successful-command: len(p.project.Environment) == old(len(p.project.Environment)) + okEnvCmds() - old(okEnvCmds())
+//@   assigns types.Project.Environment[*], heap(Elem.Str), okEnvCmds(), ctxCount(), lastTimeout(), timeoutCtxs(), cancelCalls[*], cancelled[*]
+//@   loop 1 invariant noLocks() && p.project == old(p.project) && len(p.project.Environment) == old(len(p.project.Environment)) + okEnvCmds() - old(okEnvCmds())
 //@ func (p *ProjectRunner) Run
 //@   requires noLocks() && p.project != nil && p.project.Processes != nil && p.project.ShellConfig != nil
 //@   after (*app.ProjectRunner).runProcess assert only-startable-started: !newConf.IsForeground && !newConf.Disabled
